@@ -347,6 +347,132 @@ def hp_case(rng):
     return "seq %s %s | %s" % (x, pt, " ".join(steps))
 
 
+# ---- "signmul": products / quotients / powers of two NON-POINT numbers of degree 2..3 chosen BY SIGN (negative x negative
+# 40 %, positive x positive and the two mixed patterns 20 % each; both operand orders), each operand in its own refinement
+# state (library isolation, bisection states of different widths, lopsided intervals with one coarse and one fine end,
+# extra refine steps).  The selection loop of lp_algebraic_number_op filters the roots of the resultant with
+# dyadic_interval_mul(I1, I2): which of the four corner products are the ends of the enclosure depends on the signs and on
+# the relative widths, and a lost part of the enclosure only shows while the true product lies in it and a second candidate
+# is still alive - a few per cent of random states (seeded C07-7 was first caught by luck, then missed).  Hence: the block
+# cycles through sign pattern x TARGETED CORNER (lopsided intervals keep the operands next to the chosen ends, i.e. the
+# true product in the part of the enclosure contributed by that corner product alone, for several bisection rounds), it is
+# large (a case costs ~4 ms) and it is generated AFTER the random cases (their stream is unchanged).
+def has_rational_root(p):
+    a0, an = abs(p[0]), abs(p[-1])
+    for n in range(1, a0 + 1):
+        if a0 % n:
+            continue
+        for d in range(1, an + 1):
+            if an % d == 0 and (peval(p, F(n, d)) == 0 or peval(p, F(-n, d)) == 0):
+                return True
+    return False
+
+
+def lowdeg_irrational_poly(rng):
+    """square-free polynomial of degree 2..3 with real roots, none of them rational"""
+    while True:
+        d = rng.choice([2, 2, 3])
+        m = rng.choice([2, 3, 5, 9])
+        p = [rng.randint(-m, m) for _ in range(d + 1)]
+        if p[0] == 0 or p[-1] == 0:
+            continue
+        p = primitive(p)
+        P = Poly.get(p)
+        if P.nroots == 0 or len(P.ch[-1]) != 1 or has_rational_root(p):
+            continue
+        return p
+
+
+def root_sign(P, idx):
+    lo, hi = P.isolate()[idx]
+    if lo >= 0:
+        return 1
+    if hi <= 0:
+        return -1
+    return -1 if P.count(lo, F(0)) == 1 else 1
+
+
+def signed_number(rng, sign):
+    """(p, idx): an irrational number of degree 2..3 with the given sign"""
+    while True:
+        p = rng.choice(SIGNMUL_FIXED) if rng.random() < 0.2 else lowdeg_irrational_poly(rng)
+        P = Poly.get(p)
+        idxs = [i for i in range(P.nroots) if root_sign(P, i) == sign]
+        if idxs:
+            return p, rng.choice(idxs)
+
+
+SIGNMUL_FIXED = [SQRT2, SQRT3, GOLD, [-5, 0, 1], CBRT2, [2, 0, 0, 1], [-4, 5, 5], [1, -3, 0, 1], [-1, -1, 0, 1], [1, 1, 0, 1],
+                 [-1, 0, 2], [1, 3, 1], [-3, 0, 0, 1], [3, 0, 0, 1]]
+
+
+def state_token(rng, p, idx, style=None, fine_end=None):
+    """the idx-th root of p in one of several refinement states; "lop": a lopsided interval, the root next to its
+    fine end (0 = lower, 1 = upper) for several bisection rounds and the coarse end far away"""
+    P = Poly.get(p)
+    style = style or rng.choice(["r", "r", "sym", "lop", "lop", "lop", "wide"])
+    if style == "r":
+        return "r:%s:%d" % (coeffs(p), idx), None
+    if style == "wide":
+        return alg_token(rng, p, idx, "wide")[0], None
+    if style == "sym":
+        lo, hi = approx(P, idx, rng.choice([1, 2, 2, 3, 4, 6, 9, 14]))
+    else:
+        b1 = rng.choice([1, 1, 2, 2, 3])
+        b2 = b1 + rng.choice([2, 3, 5, 8, 20])
+        c, f = approx(P, idx, b1), approx(P, idx, b2)
+        if fine_end is None:
+            fine_end = rng.randrange(2)
+        lo, hi = (c[0], f[1]) if fine_end else (f[0], c[1])
+    return "a:%s:%s:%s" % (coeffs(p), dy_tok(lo), dy_tok(hi)), (lo, hi)
+
+
+def root_floats(P):
+    if not hasattr(P, "fl"):
+        P.fl = [float(sum(approx(P, k, 40)) / 2) for k in range(P.nroots)]
+    return P.fl
+
+
+def rival_inside(p, i, I1, q, j, I2):
+    """does the enclosure I1 x I2 of the product contain the product of another pair of roots of p and q (a second
+    candidate among the roots of the resultant: the selection loop cannot stop before it has refined the operands)"""
+    cs = [a * b for a in I1 for b in I2]
+    lo, hi = float(min(cs)), float(max(cs))
+    xs, ys = root_floats(Poly.get(p)), root_floats(Poly.get(q))
+    return any(lo < xs[a] * ys[b] < hi for a in range(len(xs)) for b in range(len(ys)) if (a, b) != (i, j))
+
+
+SIGNMUL_CASES = set()       # the lines of the block (for the branch tag)
+SIGNMUL_COMBOS = [(sx, sy, ex, ey) for (sx, sy) in [(-1, -1), (-1, -1), (1, 1), (-1, 1), (1, -1)] for ex in (0, 1) for ey in (0, 1)]
+
+
+def signmul_case(rng, k):
+    """k-th case of the block: sign pattern and targeted corner product (end of I1 x end of I2 next to which the operands
+    lie) cycle through all 16 combinations, negative x negative twice"""
+    sx, sy, ex, ey = SIGNMUL_COMBOS[k % len(SIGNMUL_COMBOS)]
+    style = "lop" if rng.random() < 0.65 else None
+    for _ in range(12):
+        p, i = signed_number(rng, sx)
+        q, j = signed_number(rng, sy)
+        (x, I1), (y, I2) = state_token(rng, p, i, style, ex), state_token(rng, q, j, style, ey)
+        if I1 is None or I2 is None or rival_inside(p, i, I1, q, j, I2):
+            break
+    steps = []
+    for s in (0, 1):
+        if rng.random() < 0.2:
+            steps += ["refine:%d" % s] * rng.randint(1, 3)
+    a, b = rng.choice([(0, 1), (1, 0)])
+    r = rng.random()
+    if r < 0.6:
+        steps += ["mul:2:%d:%d" % (a, b), "mul:3:%d:%d" % (b, a), "cmp:2:3"]
+    elif r < 0.8:
+        steps += ["div:2:%d:%d" % (a, b), "sgn:2", "div:3:%d:%d" % (b, a), "cmp:2:3"]
+    else:
+        n, m = rng.choice([2, 2, 3, 4]), rng.choice([2, 3])
+        steps += ["pow:2:%d:%d" % (a, n), "sgn:2", "mul:3:%d:%d" % (a, b), "pow:4:%d:%d" % (b, m), "cmp:3:2"]
+    return "seq %s %s | %s" % (x, y, " ".join(steps))
+
+
 def random_poly(rng):
     while True:
         d = rng.choice([2, 3, 3, 4, 4])
@@ -687,11 +813,46 @@ def one_case(rng, tier):
     return "seq %s | %s" % (" ".join(toks), " ".join(steps))
 
 
+CLOSEROOT_CASES = set()
+
+
+def closeroot_case(rng, k):
+    """n-th roots of positive algebraic numbers whose CONJUGATE is close (both roots of a x^2 - b x + c positive, small
+    non-square discriminant): the candidate roots of the n-th root stay unseparated for several refinement rounds of
+    lp_algebraic_number_positive_root, so dyadic_rational_root_approx is called with growing precisions that are not
+    multiples of n (seeded change C07-14); the result is raised to the n-th power again and compared with the operand."""
+    import math
+    while True:
+        a = rng.choice([1, 1, 1, 2, 3, 4])
+        b = rng.randint(5, 60)
+        disc = rng.choice([2, 3, 5, 6, 7, 8, 10, 11, 12, 13, 15, 17, 20, 21, 24, 28, 33, 40])
+        if (b * b - disc) % (4 * a):
+            continue
+        c = (b * b - disc) // (4 * a)
+        if c <= 0 or math.gcd(math.gcd(a, b), c) != 1 or math.isqrt(disc) ** 2 == disc:
+            continue
+        break
+    n = rng.choice([2, 3, 3, 3, 4, 5])
+    idx = k % 2
+    x = "r:%d,%d,%d:%d" % (c, -b, a, idx)
+    steps = ["refine:0"] * rng.choice([0, 0, 1, 3]) + ["root:1:0:%d" % n, "pow:2:1:%d" % n, "cmp:2:0", "sgn:1", "floor:1"]
+    if rng.random() < 0.3:
+        steps += ["root:3:1:2", "pow:4:3:%d" % (2 * n), "cmp:4:0"]
+    return "seq %s | %s" % (x, " ".join(steps))
+
+
 def generate(rng, tier, corpus_only=False):
     n = 640 if tier == "quick" else 8000
     cases = ["seq %s | %s" % (p, " ".join(s)) for (p, s) in COLLAPSE]
     while len(cases) < n:
         cases.append(one_case(rng, tier))
+    # the structured block comes last: the random stream of the cases above does not depend on it
+    for k in range(600 if tier == "quick" else 3000):
+        cases.append(signmul_case(rng, k))
+        SIGNMUL_CASES.add(cases[-1])
+    for k in range(120 if tier == "quick" else 900):
+        cases.append(closeroot_case(rng, k))
+        CLOSEROOT_CASES.add(cases[-1])
     return cases
 
 
@@ -699,6 +860,10 @@ def tag(case):
     """branch tag: the first step's operation; pools with more than two operands are operation sequences"""
     t = case.split()
     bar = t.index("|")
+    if case in CLOSEROOT_CASES:
+        return "closeroot"
+    if case in SIGNMUL_CASES:
+        return "signmul-" + [s.split(":")[0] for s in t[bar + 1:] if not s.startswith("refine")][0]
     if bar > 3:
         return "sequence"
     if any(s.startswith("point:") for s in t[bar + 1:]):
@@ -751,6 +916,8 @@ RULE = ("seeded structured generator gen/C07.py: operands from fixed / random / 
         "polynomials as r: (k-th root) or a: (polynomial + isolating dyadic interval, wide, tight or touching integers) tokens; "
         "single operations with fresh / pre-used / aliased outputs, comparisons of equal numbers in different representations, "
         "scalar comparisons at the interval ends / floor / ceiling, and operation sequences with results fed back; "
+        "a final structured block (signmul) of products / quotients / powers of two non-point numbers of degree 2..3 by sign "
+        "pattern x targeted corner product of the interval multiplication, in both operand orders and several refinement states; "
         "distinct = distinct case line; non-trivial = has an irrational-style operand token")
 ASSUMPTIONS = ["general operands of degree <= 4 with products of degrees <= 16; sparse operands of degree 5..8 raised to powers <= 13; a degree <= 3 with a degree <= 11 operand; two binomials with degree product <= 70 (other steps are skipped by the harness: the reference resultants are determinant based)",
                "lp_upolynomial_gcd, coefficient_resultant, lp_upolynomial_roots_isolate and the dyadic interval arithmetic are exercised only through the algebraic-number operations (C03/C04/C06/C15 check them directly)"]
